@@ -498,6 +498,52 @@ func Bin(op string, a, b *Term) *Term {
 			}
 		}
 	}
+	// strings.Index / IndexByte / IndexRune compared with 0 or -1 is strings.Contains (the index is -1 or >= 0)
+	if _, isCmp := cmpTok[op]; isCmp {
+		for i, pr := range [][2]*Term{{a, b}, {b, a}} {
+			ix, k := pr[0], pr[1]
+			v, ok := intVal(k)
+			if !ok || ix.Op != OCall || len(ix.Args) != 2 {
+				continue
+			}
+			fn, _ := ix.Obj.(*types.Func)
+			if fn == nil || fn.Pkg() == nil || fn.Pkg().Path() != "strings" || (fn.Name() != "Index" && fn.Name() != "IndexByte" && fn.Name() != "IndexRune") {
+				continue
+			}
+			contains, _ := fn.Pkg().Scope().Lookup("Contains").(*types.Func)
+			sep := ix.Args[1]
+			if contains == nil || sep.Op != OConst || sep.C == nil {
+				continue
+			}
+			var sepStr string
+			switch sep.C.Kind() {
+			case constant.String:
+				sepStr = constant.StringVal(sep.C)
+			case constant.Int:
+				r, exact := constant.Int64Val(sep.C)
+				if !exact || r < 0 || r > 0x10FFFF || (fn.Name() == "IndexByte" && r > 127) {
+					continue
+				}
+				sepStr = string(rune(r))
+			default:
+				continue
+			}
+			if sepStr == "" {
+				continue
+			}
+			rel := op // normalised to  index REL v
+			if i == 1 {
+				rel = map[string]string{"<": ">", "<=": ">=", ">": "<", ">=": "<=", "==": "==", "!=": "!="}[op]
+			}
+			c := Call(contains, ix.Args[0], Const(constant.MakeString(sepStr), types.Typ[types.String]))
+			switch {
+			case (rel == ">=" && v == 0) || (rel == ">" && v == -1) || (rel == "!=" && v == -1):
+				return c
+			case (rel == "<" && v == 0) || (rel == "<=" && v == -1) || (rel == "==" && v == -1):
+				return NotCond(c)
+			}
+		}
+	}
 	// comparisons of two integer constants or two string constants fold
 	if tok, ok := cmpTok[op]; ok && a.Op == OConst && b.Op == OConst && a.C != nil && b.C != nil {
 		if (a.C.Kind() == constant.Int && b.C.Kind() == constant.Int) || (a.C.Kind() == constant.String && b.C.Kind() == constant.String) {
